@@ -28,6 +28,26 @@ CHECKS = {
    text="Stateful generated histories of tax / confirmation / minimum-deposit requests with boundary-biased 64-bit values through real execution blocks; after every block the queried parameters must satisfy the bounds and equal an apply-or-ignore reference model, and boundary-valued deposits are verified against the then-current parameters by the registered handler (acceptance iff value >= minimum, amount+tax=value, tax<value, amount>0).",
    note="the fee cap that accompanies an out-of-range rate is unspecified; deposit output values restricted to [0, 21e14]",
    tech="property-based testing (rapid): stateful parameter histories vs apply-or-ignore model + deposit consequence oracle"),
+ "C11": dict(cat="exploration",
+   text='Stateful model-based search: generated histories of locking requests, absences, evidence and time jumps are run through the real application; after every block the exported holdings and slashed totals are compared with an exact integer ledger (lock adds, unlock removes min(requested, held), a slash removes floor(fraction*amount) or everything if that is zero) and the conservation identity locked = held + slashed + released is recomputed per token from observed quantities only (export + completions received by the fake execution layer).',
+   note="shared locking world: validator 0 is an anchor that is never unlocked, punished or absent (an empty validator set has no acceptable successor); amounts <= 1e24 and weights <= 2^20, so totals stay far below CometBFT's MaxTotalVotingPower; absences are limited to less than a third of the previous block's power, as a real commit requires; the reference model is driven by the observed result code of the execution-block message (a failed message applies none of its requests)",
+   tech='property-based testing (rapid): stateful histories vs exact integer ledger; conservation identity over observed state'),
+ "C12": dict(cat="exploration",
+   text="Same locking world, reward clauses: the remaining grant must follow the emission schedule exactly, each voter's share of the previous block's pools must be non-negative and within 1 + pool*1e-18 of pool*power/total, shares plus carried dust must equal the pool with dust >= 0, a claim must pay exactly the accrued pair and reset it (a second claim in the same block pays zero), and granted + gas = remain + pools + accrued + claimed at every block.",
+   note="shared locking world: validator 0 is an anchor that is never unlocked, punished or absent (an empty validator set has no acceptable successor); amounts <= 1e24 and weights <= 2^20, so totals stay far below CometBFT's MaxTotalVotingPower; absences are limited to less than a third of the previous block's power, as a real commit requires; the reference model is driven by the observed result code of the execution-block message (a failed message applies none of its requests)",
+   tech='property-based testing (rapid): stateful histories vs exact reward ledger, emission-schedule formula and proportionality tolerance'),
+ "C13": dict(cat="exploration",
+   text="The consumer is the oracle: every block's validator updates are fed through a copy of CometBFT's validateValidatorUpdates and the real ValidatorSet.UpdateWithChangeSet with the H+2 pipeline; any rejection or FinalizeBlock error is a violation. The accumulated set is then compared with the exported validator records: size <= MaxValidators, members recorded active with exactly their positive power, no recorded-active outsider, no pending positive-power outsider outranking a member (power, then address).",
+   note="shared locking world: validator 0 is an anchor that is never unlocked, punished or absent (an empty validator set has no acceptable successor); amounts <= 1e24 and weights <= 2^20, so totals stay far below CometBFT's MaxTotalVotingPower; absences are limited to less than a third of the previous block's power, as a real commit requires; the reference model is driven by the observed result code of the execution-block message (a failed message applies none of its requests)",
+   tech='property-based testing (rapid): stateful histories; CometBFT ValidatorSet as consumer oracle + top-K predicate over observed records'),
+ "C14": dict(cat="exploration",
+   text='Same world with absence streaks around the window parameters and evidence ages around both limits: a reference signing-window counter and punishment model (demote + slash once + jail-until; tombstone for evidence inside either age limit; re-entry only after the jail time with every threshold met) is compared after every block with status, window counters, holdings, slashed totals, power and set membership; tombstoned validators are tracked to the end of the history under further lock/unlock/weight/threshold requests.',
+   note="shared locking world: validator 0 is an anchor that is never unlocked, punished or absent (an empty validator set has no acceptable successor); amounts <= 1e24 and weights <= 2^20, so totals stay far below CometBFT's MaxTotalVotingPower; absences are limited to less than a third of the previous block's power, as a real commit requires; the reference model is driven by the observed result code of the execution-block message (a failed message applies none of its requests)",
+   tech='property-based testing (rapid): stateful histories vs signing-window/punishment reference model with temporal (once / never-again) checks'),
+ "C15": dict(cat="exploration",
+   text='Same world biased to unlock bursts, threshold-crossing unlocks and unlocks of inactive/tombstoned validators with colliding maturities: a schedule model (maturity = request block time + unlock or exit period) must equal the exported time queue and delivery queue after every block, and every completion received by the fake execution layer must come at a block time >= its maturity, once, <= 16 per block, in (maturity, request) order, with amount min(requested, held).',
+   note="shared locking world: validator 0 is an anchor that is never unlocked, punished or absent (an empty validator set has no acceptable successor); amounts <= 1e24 and weights <= 2^20, so totals stay far below CometBFT's MaxTotalVotingPower; absences are limited to less than a third of the previous block's power, as a real commit requires; the reference model is driven by the observed result code of the execution-block message (a failed message applies none of its requests)",
+   tech='property-based testing (rapid): stateful histories vs maturity-schedule model and execution-layer delivery log'),
 }
 NA_REASON = "check not built yet in this round (planned, see DESIGN.md §5); not a statement that the technique cannot apply"
 m = {
